@@ -499,19 +499,50 @@ def _kept_exits(region, log):
     return ' '.join(out)
 
 
+
+def _anchor_re(anchor):
+    """anchors match the source text up to LAYOUT: between any two lexical tokens of the anchor any amount of
+    whitespace (none included) may appear in the source, two adjacent words need at least one blank, and a
+    closing bracket may be preceded by the trailing comma rustfmt adds when it wraps a list -- re-formatting the
+    code does not lose an anchor"""
+    toks = re.findall(r'\w+|\S', anchor)
+    if not toks:
+        return re.compile(re.escape(anchor))
+    pat = ''
+    prev = None
+    for t in toks:
+        e = re.escape(t)
+        if t in ')]}':
+            e = r'(?:,\s*)?' + e
+        if prev is not None:
+            pat += r'\s+' if (re.fullmatch(r'\w+', prev) and re.fullmatch(r'\w+', t)) else r'\s*'
+        pat += e
+        prev = t
+    return re.compile(pat)
+
+
+def _find_spans(body, anchor):
+    return [(m.start(), m.end()) for m in _anchor_re(anchor).finditer(body)]
+
+
+def _find_from(body, anchor, start=0):
+    m = _anchor_re(anchor).search(body, start)
+    return (m.start(), m.end()) if m else (-1, -1)
+
+
 def _cut_regions(body, msk, dirs):
     """source ranges removed by CUT / CUTBLOCK directives (write! calls inside them are not rewritten)"""
     from extract import match_close
     cuts = []
     for d2 in dirs:
         if d2[0] == 'CUT':
-            a2 = body.find(d2[1])
-            b2 = body.find(d2[2], a2 + len(d2[1])) if a2 >= 0 else -1
+            a2, e2 = _find_from(body, d2[1])
+            b2 = _find_from(body, d2[2], e2)[0] if a2 >= 0 else -1
             if a2 >= 0 and b2 >= 0:
                 cuts.append((a2, b2))
         elif d2[0] == 'CUTBLOCK':
-            a2 = body.find(d2[1])
-            o2 = msk.find('{', a2 + len(d2[1])) if a2 >= 0 else -1
+            a2, e2 = _find_from(body, d2[1])
+            o2 = msk.find('{', e2) if a2 >= 0 else -1
             if o2 >= 0:
                 cuts.append((o2 + 1, match_close(msk, o2)))
     return cuts
@@ -553,31 +584,31 @@ def transform_body(body, dirs, log):
             log['R5 proof insert'] = log.get('R5 proof insert', 0) + 1
         elif kind == 'SUB':
             cnt, old, new = d[1], d[2], d[3]
-            pos = [m.start() for m in re.finditer(re.escape(old), body)]
+            pos = _find_spans(body, old)
             if cnt >= 0 and len(pos) != cnt:
                 raise LostAnchor(f'SUB anchor {old!r}: expected {cnt} occurrence(s), found {len(pos)}')
-            for p in pos:
-                edits.append((p, p + len(old), new))
+            for p, pe in pos:
+                edits.append((p, pe, new))
             log['SUB rewrite'] = log.get('SUB rewrite', 0) + len(pos)
         elif kind in ('BEFORE', 'AFTER'):
             n, anchor, text = d[1], d[2], d[3]
-            pos = [m.start() for m in re.finditer(re.escape(anchor), body)]
+            pos = _find_spans(body, anchor)
             if n >= len(pos):
                 raise LostAnchor(f'{kind} anchor {anchor!r} #{n}: found {len(pos)}')
-            p = pos[n] if kind == 'BEFORE' else pos[n] + len(anchor)
+            p = pos[n][0] if kind == 'BEFORE' else pos[n][1]
             edits.append((p, p, text))
             log['R5 proof insert'] = log.get('R5 proof insert', 0) + 1
         elif kind == 'BEFOREEACH':
             anchor, text = d[1], d[2]
-            for m2 in re.finditer(re.escape(anchor), body):
-                edits.append((m2.start(), m2.start(), text))
+            for a3, _e3 in _find_spans(body, anchor):
+                edits.append((a3, a3, text))
                 log['R5 proof insert'] = log.get('R5 proof insert', 0) + 1
         elif kind == 'CUT':
             start, end = d[1], d[2]
-            a = body.find(start)
+            a, a_end = _find_from(body, start)
             if a < 0:
                 raise LostAnchor(f'CUT start anchor {start!r} not found')
-            b = body.find(end, a + len(start))
+            b = _find_from(body, end, a_end)[0]
             if b < 0:
                 raise LostAnchor(f'CUT end anchor {end!r} not found')
             edits.append((a, b, _kept_exits(body[a:b], log)))
@@ -609,10 +640,10 @@ def transform_body(body, dirs, log):
             log['R9 for-range loop desugared to while'] = log.get('R9 for-range loop desugared to while', 0) + 1
         elif kind == 'CUTBLOCK':
             anchor, rep = d[1], d[2]
-            pos = [m.start() for m in re.finditer(re.escape(anchor), body)]
+            pos = _find_spans(body, anchor)
             if len(pos) != 1:
                 raise LostAnchor(f'CUTBLOCK anchor {anchor!r}: expected 1 occurrence, found {len(pos)}')
-            o = msk.find('{', pos[0] + len(anchor))
+            o = msk.find('{', pos[0][1])
             if o < 0:
                 raise LostAnchor(f'CUTBLOCK anchor {anchor!r}: no block follows')
             from extract import match_close
@@ -623,8 +654,8 @@ def transform_body(body, dirs, log):
             cuts = []
             for d2 in dirs:
                 if d2[0] == 'CUT':
-                    a2 = body.find(d2[1])
-                    b2 = body.find(d2[2], a2 + len(d2[1])) if a2 >= 0 else -1
+                    a2, e2 = _find_from(body, d2[1])
+                    b2 = _find_from(body, d2[2], e2)[0] if a2 >= 0 else -1
                     if a2 >= 0 and b2 >= 0:
                         cuts.append((a2, b2))
             edits.extend(r7_edits(body, msk, d[1], log, cuts))
